@@ -1,6 +1,7 @@
 (* C11  Every referenced class is declared or imported, and every import resolves (import bookkeeping). *)
 From Coq Require Import List String Ascii ZArith Bool Permutation Sorting.Sorted. Import ListNotations.
 From SV Require Import Lib.Str Model.Types Model.Api Model.Back Proofs.MoreProofs Proofs.OrderProofs.
+From SV Require Import Model.View Model.Front Proofs.FrontProofs.
 
 Theorem C11_builtins_not_imported : forall classes rmap q s,
   (str_eqb (hd [] (split_ch dot q)) (K"builtins") && Nat.eqb (List.length (split_ch dot q)) 2) || str_eqb q (K"typing.Any") = true ->
@@ -21,6 +22,13 @@ Proof. exact foreign_class_registered. Qed.
 Theorem C11_import_path_minimal : forall l r, select l = Some r -> In r l /\ forall x, In x l -> id_len r <= id_len x.
 Proof. exact select_minimal. Qed.
 
+(* ANALYZER SIDE: the list of re-exporting packages stored with a declaration (from which the generator picks the import path)
+   is sorted by package id and free of duplicates, whatever the iteration order of the sets it was collected from *)
+Theorem C11_front_reexported_by_sorted_nodup : forall rm qname,
+  Sorting.Sorted.Sorted (fun a b => str_leb (rm_id a) (rm_id b) = true) (get_reexported_by rm qname) /\
+  NoDup (map rm_id (get_reexported_by rm qname)).
+Proof. exact reexported_by_sorted_nodup. Qed.
 Print Assumptions C11_builtins_not_imported.
 Print Assumptions C11_foreign_class_registered.
 Print Assumptions C11_import_path_minimal.
+Print Assumptions C11_front_reexported_by_sorted_nodup.
